@@ -94,6 +94,20 @@ func genC09(t *rapid.T) C09Case {
 			case 1: // a proof with a wrong hash: refused or not, nothing false may be stored afterwards
 				c.Steps = append(c.Steps, C09Step{Op: "badverify", Set: genRequest(t, f)})
 				continue
+			case 2: // a block the forest must refuse: some remembered leaves followed by a leaf it does not remember
+				tl := trackedList()
+				var other []int
+				for _, s := range f.Live() {
+					if !tracked[s] {
+						other = append(other, s)
+					}
+				}
+				if len(tl) > 0 && len(other) > 0 {
+					k := rapid.IntRange(1, min(3, len(tl))).Draw(t, "nbad")
+					set := append(rapid.Permutation(tl).Draw(t, "badperm")[:k:k], rapid.SampledFrom(other).Draw(t, "unknown"))
+					c.Steps = append(c.Steps, C09Step{Op: "badmodify", Set: set})
+					continue
+				}
 			}
 			set := genRequest(t, f)
 			for _, s := range set {
@@ -247,6 +261,29 @@ func runC09(c C09Case) *Result {
 			if err := check(fmt.Sprintf("step %d after %s of slots %v", i, st.Op, st.Set)); err != nil {
 				return res.failf("%v", err)
 			}
+		case "badmodify":
+			// Modify of remembered leaves followed by one live leaf the forest does not remember: it has to be
+			// refused, and the refusal must leave the remembered ones remembered and provable
+			for _, s := range st.Set {
+				if s < 0 || s >= len(f.Dead) || f.Dead[s] {
+					return res.failf("case error: step %d names slot %d which is not live", i, s)
+				}
+			}
+			if n := len(st.Set); n < 2 || tracked[st.Set[n-1]] {
+				return res.failf("case error: badmodify needs remembered slots followed by one that is not remembered")
+			}
+			{
+				hs := f.HashesOf(st.Set)
+				proof := f.View().Proof(hs)
+				if err := in.M.Modify(nil, cloneHashes(hs), cloneProof(proof)); err == nil {
+					return res.failf("step %d: Modify spending slot %d, which the partial forest was never asked to remember, was accepted", i, st.Set[len(st.Set)-1])
+				}
+				res.count("refused-modify", 1)
+			}
+			if err := check(fmt.Sprintf("step %d after a REFUSED Modify of remembered slots %v + unremembered slot %d", i, st.Set[:len(st.Set)-1], st.Set[len(st.Set)-1])); err != nil {
+				return res.failf("%v", err)
+			}
+			special = special || sawDelBlock
 		case "badverify":
 			for _, s := range st.Set {
 				if s < 0 || s >= len(f.Dead) || f.Dead[s] {
